@@ -149,6 +149,39 @@ func Decode(k Kind, s string, nilRecv bool) (Obj, error, *Panic) {
 	return DecodeOn(New(k), s)
 }
 
+// Receiver modes for DecodeMode.
+const (
+	RecvFresh   = 0 // constructor result
+	RecvNil     = 1 // typed nil receiver
+	RecvQueried = 2 // constructor result whose query methods were all called before Decode
+)
+
+// DecodeMode decodes s with a receiver obtained as the mode says.  The
+// receiver is returned as well (the object a failed decode leaves behind).
+func DecodeMode(k Kind, s string, mode int) (o Obj, recv Obj, err error, pan *Panic) {
+	switch mode {
+	case RecvNil:
+		recv = NilObj(k)
+	case RecvQueried:
+		recv = New(k)
+		x := recv.Observe()
+		if x.Pan != nil {
+			return Obj{Kind: k}, recv, nil, x.Pan
+		}
+		if bv, ok, p := recv.BaseView(); ok && p == nil && !bv.IsNil() {
+			bv.Observe()
+		}
+		if tv, ok, p := recv.TemporalView(); ok && p == nil && !tv.IsNil() {
+			tv.Observe()
+		}
+		recv.IsEmpty()
+	default:
+		recv = New(k)
+	}
+	o, err, pan = DecodeOn(recv, s)
+	return
+}
+
 // Obs is one complete observation of an object's queries.
 type Obs struct {
 	Score  float64
